@@ -1157,9 +1157,10 @@ func (gen *Generator) GenerateMultiDef(args []Sexp) error {
 		case *SexpPair:
 			// gracefully handle the quoted symbols we get from the range macro
 			unquotedSymbol, isQuo := isQuotedSymbol(sym)
-			if isQuo {
-				syms[i] = unquotedSymbol.(*SexpSymbol)
+			if !isQuo {
+				return fmt.Errorf("All mdef targets must be symbols, but %d-th was not, instead of type %T: '%s'", i+1, sym, sym.SexpString(nil))
 			}
+			syms[i] = unquotedSymbol.(*SexpSymbol)
 		default:
 			return fmt.Errorf("All mdef targets must be symbols, but %d-th was not, instead of type %T: '%s'", i+1, sym, sym.SexpString(nil))
 		}
